@@ -126,25 +126,42 @@ func classifyNext(i interface{}, d uint32, err error) nextRes {
 	return nextRes{kind: "other"}
 }
 
-// applyOp runs one call; hung reports that the call did not return.
+// applyOp runs one call on its own goroutine under a watchdog; hung reports
+// that the call did not return (the goroutine is then left behind).
 func applyOp(q *coalesce.Queue, o Op) (res Obs, hung bool) {
-	defer func() {
-		if r := recover(); r != nil {
-			res = Obs{Kind: "panic", R: fmt.Sprint(r)}
-		}
+	ch := make(chan Obs, 1)
+	go func() {
+		defer func() {
+			if r := recover(); r != nil {
+				ch <- Obs{Kind: "panic", R: fmt.Sprint(r)}
+			}
+		}()
+		ch <- applyOp1(q, o)
 	}()
+	select {
+	case r := <-ch:
+		return r, false
+	case <-time.After(hangAfter):
+		if o.K == "next" {
+			return Obs{Kind: "next", R: "hang"}, true
+		}
+		return Obs{Kind: "panic", R: "hang in " + o.K}, true
+	}
+}
+
+func applyOp1(q *coalesce.Queue, o Op) Obs {
 	switch o.K {
 	case "insert":
 		ok, err := q.Insert(o.I)
 		switch {
 		case err == nil && ok:
-			return Obs{Kind: "ins", R: "new"}, false
+			return Obs{Kind: "ins", R: "new"}
 		case err == nil:
-			return Obs{Kind: "ins", R: "dup"}, false
+			return Obs{Kind: "ins", R: "dup"}
 		case coalesce.IsClosedQueue(err) && !ok:
-			return Obs{Kind: "ins", R: "closed"}, false
+			return Obs{Kind: "ins", R: "closed"}
 		}
-		return Obs{Kind: "panic", R: "insert: unexpected result"}, false
+		return Obs{Kind: "panic", R: "insert: unexpected result"}
 	case "next":
 		ctx := context.Background()
 		cancel := func() {}
@@ -156,36 +173,21 @@ func applyOp(q *coalesce.Queue, o Op) (res Obs, hung bool) {
 			ctx, cancel = context.WithTimeout(ctx, time.Millisecond)
 		}
 		defer cancel()
-		ch := make(chan Obs, 1)
-		go func() {
-			defer func() {
-				if r := recover(); r != nil {
-					ch <- Obs{Kind: "panic", R: fmt.Sprint(r)}
-				}
-			}()
-			i, d, err := q.Next(ctx)
-			r := classifyNext(i, d, err)
-			if r.kind == "other" {
-				ch <- Obs{Kind: "panic", R: "next: unexpected result"}
-				return
-			}
-			ch <- Obs{Kind: "next", R: r.kind, I: r.i, D: r.d}
-		}()
-		select {
-		case r := <-ch:
-			return r, false
-		case <-time.After(hangAfter):
-			return Obs{Kind: "next", R: "hang"}, true
+		i, d, err := q.Next(ctx)
+		r := classifyNext(i, d, err)
+		if r.kind == "other" {
+			return Obs{Kind: "panic", R: "next: unexpected result"}
 		}
+		return Obs{Kind: "next", R: r.kind, I: r.i, D: r.d}
 	case "close":
 		q.Close()
-		return Obs{Kind: "unit"}, false
+		return Obs{Kind: "unit"}
 	case "len":
-		return Obs{Kind: "len", N: q.Len()}, false
+		return Obs{Kind: "len", N: q.Len()}
 	case "isclosed":
-		return Obs{Kind: "bool", B: q.IsClosed()}, false
+		return Obs{Kind: "bool", B: q.IsClosed()}
 	}
-	return Obs{Kind: "panic", R: "unknown op " + o.K}, false
+	return Obs{Kind: "panic", R: "unknown op " + o.K}
 }
 
 // runSeq applies ops to a fresh queue.  A Next with a background context is
@@ -381,7 +383,11 @@ func runSched(cfg SchedCfg, decide func(ready []int, k int) int) schedResult {
 	if !res.broken {
 		res.finalLen = q.Len()
 	}
-	s.Abort(func() { cancel(); q.Close() })
+	s.Abort(func() {
+		defer func() { recover() }() // a broken Close must not take the harness down
+		cancel()
+		q.Close()
+	})
 	curSched.Store(nil)
 	return res
 }
@@ -432,6 +438,11 @@ func confirmed(cfg SchedCfg, first schedResult, tries int, want []Step) (schedRe
 // stress
 
 func runStress(cfg StressCfg) (ins, del map[string]int, closedSeen, hang bool) {
+	defer func() {
+		if r := recover(); r != nil {
+			hang = true // reported as tag 4 (hang or panic)
+		}
+	}()
 	q := coalesce.NewQueue()
 	ins, del = map[string]int{}, map[string]int{}
 	var mu sync.Mutex
@@ -1075,6 +1086,7 @@ func main() {
 		{"S-dfs-1p-cancel", SchedCfg{Progs: [][]int{{0}}, NNext: 2, NCancel: 1}},
 		{"S-dfs-2p-same", SchedCfg{Progs: [][]int{{0}, {0}}, NNext: 2}},
 		{"S-dfs-1p2-close", SchedCfg{Progs: [][]int{{0, 0}}, NNext: 2, NClose: 1}},
+		{"S-dfs-2p-distinct", SchedCfg{Progs: [][]int{{0}, {1}}, NNext: 1}},
 	}
 	depth, leavesMax := 14, 400
 	if o.Thorough() {
